@@ -65,6 +65,7 @@ const (
 	dIFD          = 106
 	dEventLog     = 107
 	dLocalFiles   = 108
+	dReadPubKey   = 110
 	dACMSplit     = 109 // front end of dACMInfo only: returns UserArea and the serialised module
 )
 
@@ -77,7 +78,7 @@ var decoderNames = map[int]string{
 	dLocalCaps: "tpmdetection.local", dBytesRange: "check.BytesRange", dDecryptFrame: "bootguard.DecryptPrivKey",
 	dJSONRegs: "registers.Registers.UnmarshalJSON", dParseACM: "tools.ParseACM", dYAMLRegs: "registers.Registers.UnmarshalYAML",
 	dRegistersNew: "registers.New", dIFD: "tools.CalcImageOffset/GetRegion", dEventLog: "tpmeventlog.Parse",
-	dLocalFiles: "tpmdetection.local(files)",
+	dLocalFiles: "tpmdetection.local(files)", dReadPubKey: "bootguard.ReadPubKey",
 }
 
 type request struct {
@@ -558,6 +559,15 @@ func call(req request, rep *reply) (run func() (func(*zs), error), skip bool) {
 				_, ok := k.(crypto.Signer)
 				z.bool(ok)
 			}, err
+		}, false
+	case dReadPubKey:
+		path := filepath.Join(workDir, "pub.pem")
+		if err := os.WriteFile(path, in1, 0o644); err != nil {
+			return nil, true
+		}
+		return func() (func(*zs), error) {
+			k, err := bootguard.ReadPubKey(path)
+			return func(z *zs) { z.bool(k != nil) }, err
 		}, false
 	case dJSONRegs:
 		return func() (func(*zs), error) {
